@@ -1,1 +1,2 @@
 //! Small, independently written reference models used as oracles.
+pub mod wire;
